@@ -288,7 +288,7 @@ func CheckedAs[T fixed.Dx, TO xmath.Numeric](f Int[T]) (TO, error) {
 		}
 	default:
 		n = TO(f.data.Div(multiplier[T]()).AsInt64())
-		if From[T](n) != f {
+		if From[T](n) != f || (n < 0) != (f.data.Sign() < 0) {
 			return 0, fixed.ErrDoesNotFitInRequestedType
 		}
 	}
